@@ -107,7 +107,9 @@ func traceHash(c *simkit.Choice, r *simkit.Rec) string {
 	return hex.EncodeToString(h.Sum(nil)[:16])
 }
 
-func pickFamily(fams []scen.Family, k uint64) *scen.Family {
+// pickFamily maps a global run index to a family and the family's own
+// sequence number (contiguous per family).
+func pickFamily(fams []scen.Family, k uint64) (*scen.Family, uint64) {
 	sum := 0
 	for _, f := range fams {
 		sum += f.Weight
@@ -115,11 +117,11 @@ func pickFamily(fams []scen.Family, k uint64) *scen.Family {
 	v := int(k % uint64(sum))
 	for i := range fams {
 		if v < fams[i].Weight {
-			return &fams[i]
+			return &fams[i], (k/uint64(sum))*uint64(fams[i].Weight) + uint64(v)
 		}
 		v -= fams[i].Weight
 	}
-	return &fams[0]
+	return &fams[0], k
 }
 
 var watchdogRun uint64
@@ -281,8 +283,13 @@ func main() {
 		if *fDeadline > 0 && time.Since(start).Seconds() > *fDeadline {
 			break
 		}
-		fam := pickFamily(use, k)
-		c := simkit.NewChoice(simkit.Mix(*fSeed, fam.ID, k))
+		fam, seq := pickFamily(use, k)
+		var c *simkit.Choice
+		if fam.Enum != nil {
+			c = simkit.NewReplay(fam.Enum(*fSeed, seq))
+		} else {
+			c = simkit.NewChoice(simkit.Mix(*fSeed, fam.ID, k))
+		}
 		if *fProgress != "" && i%16 == 0 {
 			os.WriteFile(*fProgress, []byte(fmt.Sprintf("%s %d\n", fam.Name, k)), 0644)
 		}
@@ -340,6 +347,23 @@ func oneRun(res *result, sigs map[uint64]struct{}, fam *scen.Family, c *simkit.C
 	res.Outcomes[fam.Name+"/"+oc]++
 	if r.Config != "" {
 		res.Configs[r.Config]++
+	}
+	for g, m := range r.Extra {
+		if res.Extra == nil {
+			res.Extra = map[string]map[string]int64{}
+		}
+		if res.Extra[g] == nil {
+			res.Extra[g] = map[string]int64{}
+		}
+		for k, v := range m {
+			if strings.HasPrefix(k, "expected") || strings.HasPrefix(k, "records") {
+				if v > res.Extra[g][k] {
+					res.Extra[g][k] = v
+				}
+			} else {
+				res.Extra[g][k] += v
+			}
+		}
 	}
 	res.SimNS += r.SimNS
 	res.Steps += r.Steps
